@@ -338,6 +338,42 @@ def _domain_job(kw):
     return ("served", "")
 
 
+def _q2_history_job(kw):
+    """One observable with target-mass corrections at two points of the SAME x and different Q2, evaluated in the runner's order, against the
+    second point evaluated alone: the integrals of the second point are taken over structure functions at ITS Q2 (whatever helper
+    observables cached while the first point was served must not be reused)."""
+    from .. import model
+    from . import c14
+
+    proj = model.project()
+    base = dict(process="NC", fns=kw["fns"], nfff=3, pto=1, tmc=kw["tmc"], ren_sv=False, fact_sv=False, projectile="electron")
+    try:
+        _, both = c14.fold_history(proj, base, [(kw["obs"], [5, 0])])  # (1/4, 10) then (1/4, 20)
+        _, alone = c14.fold_history(proj, base, [(kw["obs"], [0])])
+    except (A.Undecided, S.Raised) as e:
+        return ("fold", f"{type(e).__name__}: {e}"[:200])
+    a = c14.point_snaps(both[0], kw["obs"], [5, 0]).get(0)
+    b = c14.point_snaps(alone[0], kw["obs"], [0]).get(0)
+    return ("cmp", a == b and a is not None)
+
+
+def check_q2_history(rep, proj, tier):
+    js = [dict(obs=o, tmc=t, fns=f) for o, t, f in itertools.product(["FL_total", "F2_total", "F3_total", "FL_light"], [1, 3] if tier == "quick" else [1, 2, 3],
+                                                                   ["ZM-VFNS"] if tier == "quick" else ["ZM-VFNS", "FFNS"])]
+    outs = sweep.run_cells(_q2_history_job, js)
+    n = 0
+    for kw, o in zip(js, outs):
+        label = f"{kw['obs']}|{kw['fns']}|TMC={kw['tmc']}|x = 1/4 at Q2 = 10, then at Q2 = 20"
+        if o[0] == "fold":
+            rep.undecided("C10.history", "src/yadism/esf/tmc.py", label, o[1])
+            continue
+        n += 1
+        rep.check(o[1], "C10.history", "src/yadism/esf/tmc.py", label, "the corrected operator at Q2 = 20 is the one obtained when the point is requested alone",
+                  "the corrected operator at Q2 = 20 differs from the one obtained when the point is requested alone: its integrals reuse structure "
+                  "functions of the point served before (another Q2)", key=label)
+    rep.floor("TMC two-Q2 histories decided", n, 6)
+
+
 def check_domain(rep, proj, tier):
     kinds = ["F2_total", "FL_total", "F3_total", "g1_total"] if tier == "quick" else ["F2_total", "FL_total", "F3_total", "g1_total", "F2_charm", "FL_light", "F3_light"]
     js = [dict(obs=o, tmc=t, xmin=xm, process=pr, projectile=pj) for o, t, xm, (pr, pj) in itertools.product(
@@ -433,6 +469,7 @@ def run(rep, proj, tier):
     check_shared(rep, proj, tier)
     check_massless(rep, proj, tier)
     check_domain(rep, proj, tier)
+    check_q2_history(rep, proj, tier)
     js = jobs(tier)
     outs = sweep.run_cells(_job, js)
     n_entries = 0
